@@ -145,8 +145,12 @@ def run_case(case, tier, known):
     def scen(ip_):
       s = case.scenario(ip_)
       return s
-    paths = ip.explore(scen, max_paths=case.max_paths)
+    paths = ip.explore(scen, max_paths=case.max_paths, partial_unsupported=True)
+    unsup = [p for p in paths if p.outcome == "unsupported"]
+    paths = [p for p in paths if p.outcome != "unsupported"]
     res["paths"] = len(paths)
+    if unsup and not paths:
+      raise Unsupported(unsup[0].value)
     for key, fv in ip.functions_touched.items():
       res["functions"][key] = ip.source_sha(fv)
     res["lib_used"] = sorted(L.USED)
@@ -196,6 +200,10 @@ def run_case(case, tier, known):
                                  "reason": "case wall-clock budget (%ds) exhausted before this clause" % budget}
         continue
       res["clauses"][cname] = _run_clause(case, cname, per_path, timeout, known.get(cname, []), res)
+      if unsup and res["clauses"][cname]["status"] == "discharged":
+        # some paths left the fragment: nothing is proved for the clause (a replayed failure on a supported path stands)
+        res["clauses"][cname]["status"] = "unknown"
+        res["clauses"][cname]["reason"] += " unsupported on %d path(s): %s" % (len(unsup), str(unsup[0].value)[:300])
   except Unsupported as e:
     res["undecided_reason"] = "unsupported: %s" % e
   except Exception as e:  # pylint: disable=broad-except
